@@ -1811,7 +1811,8 @@ SPEC_PROBES = [
     ('flex: 1 0', True, None), ('flex: 2 3 10px', True, None), ('flex: 10px 2 3', True, None), ('flex: none', True, None),
     ('flex-grow: 0', True, None), ('flex-grow: 1.5', True, None), ('color: RED', True, None), ('COLOR: red', True, None),
     ('border-radius: 1px / 2px', True, None), ('border-radius: 1px 2px 3px 4px / 5px', True, None),
-    ('columns: 2 10em', True, None), ('columns: auto', True, None), ('font: 12px serif', True, None),
+    ('columns: 2 10em', True, None), ('columns: auto', True, None), ('columns: auto 40px', True, None),
+    ('columns: 40px auto', True, None), ('columns: auto 2', True, None), ('columns: auto auto', True, None), ('font: 12px serif', True, None),
     ('font: italic bold 12px/1.5 a, b', True, None), ('font: normal 12px serif', True, None),
     ('margin: inherit', True, None), ('margin: initial', True, None), ('z-index: -1', True, None),
     ('line-height: 1.5', True, None), ('padding: 0', True, None), ('text-decoration: underline dotted red', True, None),
@@ -1860,6 +1861,9 @@ RENDER_PROBES = [
     ('margin-left:var(--gap, 10px);padding-left:var(--gap, 20px)', 'margin-left:10px;padding-left:20px', None,
      'each reference its own fallback'),
     ('margin:0 var(--gap, 30px) 0 var(--gap, 5px)', 'margin:0 30px 0 5px', None, 'each reference its own fallback'),
+    ('columns:auto 40px', 'column-width:40px;column-count:auto', None, 'auto stands for the component that is not given'),
+    ('columns:40px auto', 'column-width:40px;column-count:auto', None, 'auto stands for the component that is not given'),
+    ('columns:auto 2', 'column-width:auto;column-count:2', None, 'auto stands for the component that is not given'),
     ('--x:5px;width:var(--x)', 'width:5px', None, 'plain substitution'),
     ('--x:5px;width:var(--X, 9px)', 'width:9px', None, 'custom property names are case-sensitive'),
 ]
@@ -1926,11 +1930,11 @@ def check(run):
         spec = []
     rdirect, rpairs = cases_ranges(rng, spec, thorough)
     streams = [('rdirect', rdirect), ('rpairs', rpairs),
-               ('pp', cases_pp(rng, gr, 24000 if thorough else 2600)),
-               ('dispatch', cases_dispatch(rng, gr, 40000 if thorough else 4000)),
+               ('pp', cases_pp(rng, gr, 24000 if thorough else 2000)),
+               ('dispatch', cases_dispatch(rng, gr, 40000 if thorough else 3000)),
                ('units', cases_units(rng, 4000 if thorough else 300)),
                ('var', cases_var(run, rng, 8000 if thorough else 600)),
-               ('render', cases_render(rng, gr, 6000 if thorough else 500)),
+               ('render', cases_render(rng, gr, 6000 if thorough else 400)),
                ('probes', cases_probes()),
                ('pending', cases_pending(rng, 6000 if thorough else 700)),
                ('shared', cases_shared(rng, 1000 if thorough else 130))]
